@@ -213,6 +213,27 @@ Proof.
   apply (fc_struct_object_out _ (chain_plain_ctx_plain s H) _ _ d AG).
 Qed.
 
+(* T4 without the bound-size hypothesis (parse_preserves_acceptance_partial_strong: general decimal round trip) *)
+Theorem src_valid_roundtrip_plain_strong s tname d out :
+  chain_plain s = true -> json_wf d = true -> json_ints_int64 d = true ->
+  process chain_go (parse_ctx s) = Ok out -> ctx_supported out = true ->
+  str_in tname (map fst (src_defs s)) = true ->
+  src_valid_doc "jsonschema" s tname d = true ->
+  roundtrip_safeF out (src_pkg s) tname d = true ->
+  roundtrip_holds out (src_pkg s) tname d = true.
+Proof.
+  intros H WF HI P CS IN SV RS.
+  destruct (fc_chain_plain_parts s H) as [W _].
+  pose proof (parse_preserves_acceptance_partial_strong s tname d W (chain_plain_no_constrained_typearray s H)
+                WF HI IN) as AG.
+  unfold acceptance_agrees in AG. apply eqb_prop in AG. rewrite SV in AG. symmetry in AG.
+  pose proof (chain_go_preserves_acceptance_fwd s tname d out H P AG) as IV.
+  apply go_roundtrip_nf_partial_weak; try assumption.
+  rewrite (chain_go_plain_explicit s H) in P. inversion P; subst out.
+  apply (fc_struct_object_out _ (chain_plain_ctx_plain s H) _ _ d AG).
+Qed.
+
+
 (* ---------- T3: acceptance both ways (no constraint, no date-time; null-free documents) ---------- *)
 Lemma fc_js_ty_bare pkg : forall t, sty_plain t = true -> sty_unconstrained t = true -> ty_bare (js_ty pkg t) = true.
 Proof.
@@ -311,3 +332,4 @@ Print Assumptions chain_go_acceptance_null_witness.
 Print Assumptions chain_go_any_null_witness.
 Print Assumptions src_valid_roundtrip_plain.
 Print Assumptions chain_plain_nonvacuous.
+Print Assumptions src_valid_roundtrip_plain_strong.
